@@ -22,6 +22,7 @@ type impFn struct {
 	retSelf    bool            // the single result is the receiver pointer itself
 	bigFresh   map[string]bool // big.Int variables currently bound to a fresh object (pool.BigInt.Get): may be overwritten
 	bigUninit  map[string]bool // … whose contents have not been set yet: may not be read
+	bigScratch map[string]bool // … declared by `x := pool.BigInt.Get()` (checkBigScratch: never re-assigned or aliased): fresh in its whole scope
 	bigDead    map[string]bool // … that have been given back to the pool (pool.BigInt.Put): may not be used any more
 	evRecv     bool            // the "receiver" is the event list of a callback parameter
 	fuels      []string        // explicit fuel parameters (loops without a recognised counting pattern)
@@ -69,6 +70,8 @@ func lname(n string) string {
 	}
 	return n
 }
+
+func (f *impFn) isFresh(x string) bool { return f.bigFresh[x] || f.bigScratch[x] }
 
 // ---------------------------------------------------------------------------------------------- scopes
 
@@ -173,6 +176,9 @@ func (f *impFn) expr(e ast.Expr, want *ity, c *ictx) (string, *ity) {
 			}
 			if want != nil && want.k == "byte" {
 				return "(" + v.Value + " : UInt8)", tyByte
+			}
+			if want != nil && want.k == "int64" { // untyped constant in an int64 context
+				return v.Value, want
 			}
 			return v.Value, tyInt
 		}
@@ -372,7 +378,7 @@ func (f *impFn) binary(v *ast.BinaryExpr, want *ity, c *ictx) (string, *ity) {
 			p.die(v, "comparison of %v with nil (slices / maps: not in the by-value subset)", xt)
 		}
 		xs, xt, ys, yt := f.operands(v, nil, c)
-		if !xt.eq(yt) || !(xt.k == "int" || xt.k == "uint64" || xt.k == "bool" || xt.k == "string" || xt.k == "error" || xt.k == "byte") {
+		if !xt.eq(yt) || !(xt.k == "int" || xt.k == "uint64" || xt.k == "bool" || xt.k == "string" || xt.k == "error" || xt.k == "byte" || xt.k == "int64") {
 			p.die(v, "comparison of %v and %v", xt, yt)
 		}
 		op := "=="
@@ -390,6 +396,9 @@ func (f *impFn) binary(v *ast.BinaryExpr, want *ity, c *ictx) (string, *ity) {
 	case token.XOR:
 		xs, xt := f.expr(v.X, tyByte, c)
 		ys, yt := f.expr(v.Y, tyByte, c)
+		if xt.k == "int64" && yt.k == "int64" { // bitwise xor of the two's complement representations
+			return "xorS64 " + parenImp(xs) + " " + parenImp(ys), xt
+		}
 		if xt.k != "byte" || yt.k != "byte" {
 			p.die(v, "^ on %v, %v (only bytes)", xt, yt)
 		}
@@ -397,6 +406,9 @@ func (f *impFn) binary(v *ast.BinaryExpr, want *ity, c *ictx) (string, *ity) {
 	case token.SHR:
 		xs, xt := f.expr(v.X, tyInt, c)
 		n := litInt(v.Y)
+		if xt.k == "int64" && n != nil { // arithmetic shift of an int64: floor division by 2^n, no wrap-around possible
+			return "Int.shiftRight " + parenImp(xs) + " " + n.String(), xt
+		}
 		if xt.k != "int" || n == nil {
 			p.die(v, ">> form (only int >> literal: arithmetic shift = floor division by 2^n)")
 		}
@@ -424,6 +436,9 @@ func (f *impFn) binary(v *ast.BinaryExpr, want *ity, c *ictx) (string, *ity) {
 			case token.REM:
 				return parenImp(xs) + " % " + parenImp(ys), tyU64
 			}
+		}
+		if xt.k == "int64" && yt.k == "int64" && (v.Op == token.ADD || v.Op == token.SUB) { // int64: wraps around
+			return "wrapS64 (" + parenImp(xs) + " " + v.Op.String() + " " + parenImp(ys) + ")", xt
 		}
 		if xt.k != "int" || yt.k != "int" {
 			p.die(v, "%s on %v, %v", v.Op, xt, yt)
@@ -603,6 +618,14 @@ func (f *impFn) call(v *ast.CallExpr, want *ity, c *ictx) (string, *ity) {
 			if bl, ok := v.Args[0].(*ast.BasicLit); ok && bl.Kind == token.STRING {
 				return "Err.sentinel " + bl.Value, tyErr
 			}
+			if be, ok := v.Args[0].(*ast.BinaryExpr); ok && be.Op == token.ADD && p.tg.mode == "h2f" {
+				// errors.New("literal" + s): a sentinel named by its message
+				if bl, ok := be.X.(*ast.BasicLit); ok && bl.Kind == token.STRING {
+					if ss, st := f.expr(be.Y, tyString, c); st.k == "string" {
+						return "Err.sentinel (" + bl.Value + " ++ strOf " + parenImp(ss) + ")", tyErr
+					}
+				}
+			}
 		}
 		p.die(v, "errors.New form")
 	case "uint8", "byte":
@@ -620,7 +643,7 @@ func (f *impFn) call(v *ast.CallExpr, want *ity, c *ictx) (string, *ity) {
 		if len(v.Args) == 1 && f.lookup(exprText(v.Fun)) == nil {
 			xs, xt := f.expr(v.Args[0], nil, c)
 			switch xt.k {
-			case "int":
+			case "int", "int64":
 				return "uintOfInt " + parenImp(xs), tyU64
 			case "uint64":
 				return xs, tyU64
